@@ -6,7 +6,9 @@
 pub mod alloc;
 pub mod cpu;
 pub mod panicmon;
+pub mod muxdrive;
 pub mod prng;
+pub mod refdec;
 pub mod report;
 pub mod streams;
 pub mod props;
